@@ -151,6 +151,10 @@ class Check:
                                        'warnings' if a[1] != w[1] else 'running order'))
                     if how == 'strings' and len(a) == 3 and (n % 5 == 1) and not what:
                         what = self.second_merge(c, io, tmp)
+                    if how == 'strings' and len(a) == 3 and (n % 7 == 3) and not c['strict'] and not what:
+                        what = self.shared_readers(c['docs'])
+                        if what:
+                            c = dict(c, shared_readers=True)
                     if what:
                         vio.append({'what': what, 'case': {'kind': 'coll', 'docs': c['docs'], 'inc': True, 'strict': c['strict'], 'how': how},
                                     'impl': str(a[:2]), 'expected': str(w[:2])})
@@ -170,6 +174,39 @@ class Check:
                         'explained': bool(vio)})
         return {'evaluations': n, 'distinct': len(sigs), 'rule': self.rule, 'samples': samples, 'distribution': dist,
                 'disagreements': dis, 'violations': vio, 'extra': {'sequences': len(seqs), 'translated_tables': gt}}
+
+    def shared_readers(self, docs):
+        """the same MosReader objects handed to two collections while the first is still alive (try strict, fall back to
+        non-strict): the second merge equals the one-by-one fold of freshly read messages, whatever the first did"""
+        import warnings
+        from mosromgr.moscollection import MosCollection, MosReader
+        with warnings.catch_warnings(record=True) as ws:
+            warnings.simplefilter('always')
+            try:
+                readers = sorted(MosReader.from_string(t) for t in docs)
+                mc1 = MosCollection(list(readers), allow_incomplete=True)
+            except Exception:
+                return None
+            try:
+                mc1.merge(strict=True)
+            except Exception:
+                pass
+        with warnings.catch_warnings(record=True) as ws:
+            warnings.simplefilter('always')
+            err = None
+            try:
+                mc2 = MosCollection(list(readers), allow_incomplete=True)
+                mc2.merge(strict=False)
+            except Exception as e:
+                err = type(e).__name__
+        want = hand_fold(docs, False)
+        got = (err, tuple(impl.wnames(ws)), X.elem_to_tree(mc2.ro.xml) if err is None or 'mc2' in dir() else None)
+        w = (want['err'], tuple(want['warns']), want['tree'])
+        if got != w:
+            return ('a second collection over the same MosReader objects (first collection still alive) differs from adding the '
+                    'messages one by one: %s' % ('exception %r vs %r' % (got[0], w[0]) if got[0] != w[0] else
+                                                 'warnings' if got[1] != w[1] else 'running order'))
+        return None
 
     def second_merge(self, c, io1, tmp):
         """merge() called again on the same collection: the same as merging the same messages into the state the
@@ -208,7 +245,7 @@ class Check:
         bad = (io['err'], io['warns'], io['tree']) != (want['err'], want['warns'], want['tree'])
         second = None
         if not bad and case.get('how', 'strings') == 'strings':
-            second = self.second_merge(case, io, None)
+            second = self.second_merge(case, io, None) or self.shared_readers(case['docs'])
         return {'violation': bad or bool(second), 'impl_err': io['err'], 'want_err': want['err'],
                 'impl_warns': io['warns'], 'want_warns': want['warns'], 'second_merge': second}
 
